@@ -62,6 +62,11 @@ def build_cases(tr, mode):
         if s == "CGKO06.SSE1":
             d = dict(d, param_s=32768, param_dictionary_size=256)
         cases.append((s, -6, d, [100] * 168 + [130, 70]))
+    # arrays of more than 2^14 cells (one posting per block), EVERY keyword searched: a placement that mishandles one
+    # particular cell (the first, the last) shows under exactly one keyword
+    cases.append(("CJJ14.PiPtr", -7, dict(sc.default_config("CJJ14.PiPtr"), param_B=1, param_b=16), [50] * 340))
+    cases.append(("CJJ14.Pi2Lev", -7, dict(sc.default_config("CJJ14.Pi2Lev"), param_B=2, param_b=8, param_B_prime=2, param_b_prime=8), [31] * 1100))
+    cases.append(("CGKO06.SSE1", -7, dict(sc.default_config("CGKO06.SSE1"), param_s=32768, param_dictionary_size=512), [50] * 340))
     # profiles on either side of every layout threshold that only larger databases reach, found by TLC (MC_Boundaries)
     bcfgs = se.boundary_families(tr)
     if tr == "thorough":
@@ -114,7 +119,7 @@ def run(tr, mode, prop, replay_path=None):
             model["generated"] += tot["generated"]
     sd = seed()
     recs = pmap(lambda a: se.run_case(a[1][0], a[1][2], a[1][3], sd * 1000003 + a[0], present=present, absent=absent,
-                                      max_search=8), list(enumerate(cases)))
+                                      max_search=1000 if a[1][1] == -7 else 8), list(enumerate(cases)))
     traces = [{"tid": "k%d" % i, "ev": [strip(r)]} for i, r in enumerate(recs)]
     verdicts, agg = validate_traces("Trace_SSE", traces, shards=12)
     rej, drift = [], []
